@@ -598,6 +598,16 @@ def run(ctx, rep):
         cls_ = ctx.classes.get(q)
         c11.check_handlers(ctx, RuleProxy(rep, 'C06.H', 'handlers::'), kinds_, cls_)
         c11.check_setters(ctx, RuleProxy(rep, 'C06.H', 'setters::'), cls_)
+    # the time-tree models themselves mark their heights / branch lengths outdated on EVERY event (no early return while another flag is still up), and the
+    # reparameterised model recomputes its heights from the current parameter before it hands anything out (C11.H on the tree models, C07.C caller rule)
+    for cls_ in sorted(ctx.classes.classes.values(), key=lambda c: c.qualname):
+        if cls_.module.name == TM and not cls_.is_abstract() and cls_.has_base('torchtree.core.parametric.Parametric'):
+            c11.check_handlers(ctx, RuleProxy(rep, 'C06.H', 'handlers::'), kinds_, cls_)
+    from props import c07 as _c07
+    try:
+        _c07.check_callers(ctx, RuleProxy(rep, 'C06.H', 'refresh::'))
+    except Unsupported as u:
+        rep.undecided('C06.H', 'refresh::check_callers', '', str(u))
     # tips sit at *their* sampling time: sampling dates are stored in Taxa order, so a leaf's index must be the position of its taxon in that list
     from props import c02
     c02.check_leaf_index(ctx, rep, 'C06.F', 'tips::')
